@@ -41,6 +41,11 @@ inductive FsOp
   | sync
   | close
   | remove                       -- `os.Remove(path)`
+  | write                        -- `h.File().Write(bytes)`: the content in ONE write call (the pid line of `Lock`)
+  | removeAll                    -- `os.RemoveAll(path)`: no error when the path is absent
+  | mmap                         -- `mmap.Map(h.File(), mmap.RDONLY, 0)`
+  | unmap                        -- `mm.Unmap()`
+  | dataFile                     -- `segment.NewDataFile(h.File())` (a `Stat` of the open file)
 deriving DecidableEq, Repr
 
 /-- one statement of the program -/
@@ -48,6 +53,8 @@ inductive FsStep
   | act (op : FsOp) (onErr : List FsOp)   -- `err = op; if err != nil { onErr… (results ignored); return err }`
   | ignore (op : FsOp)                    -- `_ = op`
   | deferOps (ops : List FsOp)            -- `defer func() { _ = op … }()`
+  | always (op : FsOp)                    -- `errK := op` — the next steps run whatever it returns; the function
+                                          -- returns the first error of these calls (`if err == nil { err = errK }`)
 deriving DecidableEq, Repr
 
 abbrev Prog := List FsStep
@@ -75,6 +82,7 @@ structure Env where
   syncFault : Bool := false
   closeFault : Bool := false           -- close reports an error (the handle is released all the same)
   removeFault : Bool := false
+  mmapFault : Bool := false            -- `mmap` fails although the file is not empty
 
 inductive Ev
   | open (flags : List OFlag) (perm : Nat) (ok : Bool)
@@ -86,6 +94,8 @@ inductive Ev
   | close (ok : Bool)
   | unlink (ok : Bool)
   | ret (ok : Bool)
+  | mmap (ok : Bool)
+  | munmap
 deriving DecidableEq, Repr
 
 abbrev Trace := List Ev
@@ -193,6 +203,36 @@ def runOp (env : Env) (s : FSState) : FsOp → Bool × FSState × List Ev
     match s.dir env.name with
     | none => (false, s, [.unlink false])
     | some _ => (true, { s with dir := upd s.dir env.name none }, [.unlink true])
+  | .write =>
+    let data := written env
+    let wok := env.writerStop.isNone
+    match s.h with
+    | none => (false, s, [])
+    | some h =>
+      if !h.writable then (false, s, []) else
+      match s.dir h.name with
+      | none => (wok, s, [.write data.length])
+      | some f =>
+        let p := if h.append then f.vol.length else h.pos
+        (wok, ⟨upd s.dir h.name (some { f with vol := overwrite f.vol p data }), some { h with pos := p + data.length }⟩,
+          [.write data.length])
+  | .removeAll =>
+    if env.removeFault then (false, s, [.unlink false]) else
+    match s.dir env.name with
+    | none => (true, s, [.unlink false])            -- ENOENT is not an error for RemoveAll
+    | some _ => (true, { s with dir := upd s.dir env.name none }, [.unlink true])
+  | .mmap =>
+    match s.h with
+    | none => (false, s, [.mmap false])
+    | some h =>
+      -- a mapping of length 0 is refused by the kernel (EINVAL): an empty file cannot be mapped
+      let empty := match s.dir h.name with | some f => f.vol.isEmpty | none => false
+      if env.mmapFault || empty then (false, s, [.mmap false]) else (true, s, [.mmap true])
+  | .unmap => (true, s, [.munmap])
+  | .dataFile =>
+    match s.h with
+    | none => (false, s, [])
+    | some _ => (true, s, [])
 
 /-- calls whose results are ignored (clean-up closures, deferred calls) -/
 def runQuiet (env : Env) (s : FSState) : List FsOp → FSState × List Ev
@@ -221,6 +261,10 @@ def body (env : Env) (s : FSState) : Prog → Bool × FSState × List Ev
     let b := body env s rest
     let q := runQuiet env b.2.1 ops
     (b.1, q.1, b.2.2 ++ q.2)
+  | .always op :: rest =>
+    let r := runOp env s op
+    let b := body env r.2.1 rest
+    (r.1 && b.1, b.2.1, r.2.2 ++ b.2.2)
 
 def interp (prog : Prog) (env : Env) (s : FSState) : Result × FSState × Trace :=
   let b := body env s prog
@@ -326,6 +370,141 @@ def canonRemove (flags : List OFlag) (perm : Nat) (lock : LockMode) : Prog :=
 def removeShapeOf : Prog → List OFlag × Nat × LockMode
   | .act (.openFile fl pm lk) _ :: _ => (fl, pm, lk)
   | _ => ([], 0, .none)
+
+
+/-! ## Several actors on one path: locks as state (`Lock`/`Unlock` on `bluge.pid`, items held by readers)
+
+`interp` above has one handle and takes "somebody else holds a lock" from the environment.  Here the
+locks are state.  One path; the directory entry (`link`) names an inode; every actor (a
+`FileSystemDirectory` object of some process: a writer, a second writer, a reader, the deletion policy)
+has at most one open file description on the path.  `flock` locks belong to the open file description
+and sit on the INODE, not on the name: unlinking the name while somebody holds a lock on the inode and
+creating the name again yields a fresh inode with no lock on it — which is why a refused second writer
+must not remove `bluge.pid` (`refused_unlock_admits_third` in `BlugeProofs.C13`).
+
+The same extracted programs (`Prog`) run here as in `interp`; no faults are injected (they are `interp`'s
+business), the writer's bytes are the parameter `data`. -/
+namespace World
+
+abbrev Actor := Nat
+
+structure Inode where
+  vol : Bytes := []
+  dur : Option Bytes := none
+  /-- the `flock`s held on this inode: (actor whose open file description holds it, exclusive?) -/
+  locks : List (Actor × Bool) := []
+deriving DecidableEq, Repr
+
+structure Fd where
+  ino : Nat
+  writable : Bool
+  pos : Nat
+  lock : LockMode
+deriving DecidableEq, Repr
+
+structure W where
+  /-- the inode the path names, if the name exists -/
+  link : Option Nat := none
+  /-- inodes `0 .. next-1` have been created -/
+  next : Nat := 0
+  ino : Nat → Inode := fun _ => {}
+  fd : Actor → Option Fd := fun _ => none
+
+def setIno (w : W) (i : Nat) (x : Inode) : W := { w with ino := fun j => if j = i then x else w.ino j }
+def setFd (w : W) (a : Actor) (f : Option Fd) : W := { w with fd := fun b => if b = a then f else w.fd b }
+
+/-- `flock(fd, LOCK_EX|LOCK_NB)` resp. `LOCK_SH|LOCK_NB` on a NEW open file description: refused when any
+other description holds a conflicting lock (every existing entry is another description) -/
+def conflicts (excl : Bool) (locks : List (Actor × Bool)) : Bool := locks.any fun l => excl || l.2
+
+/-- would `Lock()` be refused now?  (the abstraction to the `lock` bit of `Bluge.Persist`) -/
+def lockAbs (w : W) : Bool :=
+  match w.link with
+  | some i => !(w.ino i).locks.isEmpty
+  | none => false
+
+def runOp (a : Actor) (data : Bytes) (w : W) : FsOp → Bool × W
+  | .openFile flags _ lock =>
+    match w.link with
+    | none =>
+      if flags.contains .O_CREATE then
+        -- a fresh inode: nobody can hold a lock on it
+        let i := w.next
+        let w1 : W := { setIno w i {} with link := some i, next := i + 1 }
+        match lock with
+        | .none => (true, setFd w1 a (some ⟨i, isWritable flags, 0, .none⟩))
+        | l => (true, setFd (setIno w1 i { locks := [(a, l == .exclusive)] }) a (some ⟨i, isWritable flags, 0, l⟩))
+      else (false, w)
+    | some i =>
+      if flags.contains .O_CREATE && flags.contains .O_EXCL then (false, w) else
+      let w1 := if flags.contains .O_TRUNC && isWritable flags then setIno w i { w.ino i with vol := [] } else w
+      match lock with
+      | .none => (true, setFd w1 a (some ⟨i, isWritable flags, 0, .none⟩))
+      | l =>
+        if conflicts (l == .exclusive) (w1.ino i).locks then (false, w1)    -- the description is closed again
+        else (true, setFd (setIno w1 i { w1.ino i with locks := (a, l == .exclusive) :: (w1.ino i).locks }) a
+                      (some ⟨i, isWritable flags, 0, l⟩))
+  | .truncate n =>
+    match w.fd a with
+    | none => (false, w)
+    | some f =>
+      if !f.writable then (false, w) else
+      let x := w.ino f.ino
+      (true, setIno w f.ino { x with vol := x.vol.take n ++ List.replicate (n - x.vol.length) 0 })
+  | .writeTo | .write =>
+    match w.fd a with
+    | none => (false, w)
+    | some f =>
+      if !f.writable then (false, w) else
+      let x := w.ino f.ino
+      (true, setFd (setIno w f.ino { x with vol := overwrite x.vol f.pos data }) a (some { f with pos := f.pos + data.length }))
+  | .sync =>
+    match w.fd a with
+    | none => (false, w)
+    | some f => let x := w.ino f.ino; (true, setIno w f.ino { x with dur := some x.vol })
+  | .close =>
+    match w.fd a with
+    | none => (false, w)
+    | some f =>
+      let x := w.ino f.ino
+      let x' := match f.lock with
+        | .none => x
+        | l => { x with locks := x.locks.erase (a, l == .exclusive) }
+      (true, setFd (setIno w f.ino x') a none)
+  | .remove =>
+    match w.link with
+    | none => (false, w)
+    | some _ => (true, { w with link := none })     -- the inode lives on while descriptions are open
+  | .removeAll => (true, { w with link := none })
+  | .mmap =>
+    match w.fd a with
+    | none => (false, w)
+    | some f => (!(w.ino f.ino).vol.isEmpty, w)
+  | .unmap => (true, w)
+  | .dataFile => ((w.fd a).isSome, w)
+
+def runQuiet (a : Actor) (data : Bytes) (w : W) : List FsOp → W
+  | [] => w
+  | op :: ops => runQuiet a data (runOp a data w op).2 ops
+
+def body (a : Actor) (data : Bytes) (w : W) : Prog → Bool × W
+  | [] => (true, w)
+  | .act op onErr :: rest =>
+    let r := runOp a data w op
+    if r.1 then body a data r.2 rest else (false, runQuiet a data r.2 onErr)
+  | .ignore op :: rest => body a data (runOp a data w op).2 rest
+  | .deferOps ops :: rest =>
+    let b := body a data w rest
+    (b.1, runQuiet a data b.2 ops)
+  | .always op :: rest =>
+    let r := runOp a data w op
+    let b := body a data r.2 rest
+    (r.1 && b.1, b.2)
+
+/-- actor `a` runs the program -/
+def run (a : Actor) (data : Bytes) (prog : Prog) (w : W) : Bool × W := body a data w prog
+
+end World
 
 /-! ## The witness of the missing truncation (`new` written over `OLDOLDOLDOLDOLDOLD`) -/
 
